@@ -163,11 +163,11 @@ PeWrite(t, c, who, n, post) ==
     /\ UNCHANGED <<pod, eni, made>>
 
 (* ------------------------------------------------------------------ cloud calls (atomic in the fake: guard on the state before, then the effect) *)
-CloudCreate(t, c, who, e, ours) ==
+CloudCreate(t, c, who, e, ours, created) ==       \* created: the creation time the cloud reports for it (second granularity, <= t)
     /\ Adv(t)
     /\ IF e = 0 THEN UNCHANGED <<eni, call, made>>
        ELSE /\ ~eni[e].ex                                                                                \* (I) fresh id
-            /\ eni' = [eni EXCEPT ![e] = [ex |-> TRUE, st |-> "Available", inst |-> 0, ours |-> ours, created |-> t]]
+            /\ eni' = [eni EXCEPT ![e] = [ex |-> TRUE, st |-> "Available", inst |-> 0, ours |-> ours, created |-> created]]
             /\ call' = [x \in Calls |-> IF x = c THEN [call[x] EXCEPT !.new = @ \cup {e}]
                                         ELSE IF call[x].open /\ call[x].who = "gcl" THEN [call[x] EXCEPT !.unref = @ \cup {e}] ELSE call[x]]
             /\ made' = IF who = "pc" THEN made \cup {e} ELSE made
